@@ -19,10 +19,13 @@ CLAIMS = {
             "Props/C01.lean; model of runtime_status.py, container.py, resource_pool.py, executor.py, assignment.py, dag.py"),
     "C02": ("Lean theorems: the transition table extracted from the source is the documented one (decide); accepted changes are table arrows, "
             "invalid ones are refused; counts = histogram of states and completed-is-final as invariants over arbitrary command sequences; "
-            "an Assignment containing a completed operator is refused. Tie: exhaustive request histories on all DAGs of <= 3 operators to depth 3/4 "
+            "an Assignment containing a completed operator is refused; ONE LIVE CONTAINER PER OPERATOR as an invariant of the closed loop: if the operators in the unfinished suffixes of all "
+            "running and suspending containers of all pools are pairwise distinct and each ASSIGNED/RUNNING/SUSPENDING, then after any chain of accepted Assignment constructions and the "
+            "executor tick that receives them (all six phases of every pool: suspensions, starts, write-outs, container ticks, both OOM-killer steps, collection) the same holds "
+            "(`tick_keeps_one_live_container_per_operator`, footprint discipline in Proofs/Live.lean; holds in a fresh world). Tie: exhaustive request histories on all DAGs of <= 3 operators to depth 3/4 "
             "against the real PipelineRuntimeStatus, lock-step executor scenarios; `check_C02` (moves follow the table, counts, disjoint live "
             "containers) on every implementation trace.",
-            "Props/C02.lean; the disjointness of live containers is checked on traces (not yet a theorem)"),
+            "Props/C02.lean, Proofs/Live.lean, Proofs/Built.lean; the live-container theorem assumes the tick succeeds and every operator has at least one segment"),
     "C03": ("Lean theorems on the pool model (conservation of CPU and RAM over active + suspending containers, non-negativity, whole-batch rejection); "
             "tie: lock-step of the real Executor on directed sequences (overselling batches, suspensions run to their end, kills); `check_C03` on every "
             "implementation trace.", "Props/C03.lean"),
